@@ -43,3 +43,31 @@ package kgo
 //@   ensures [only-the-matching-response] (err == nil && !flexibleHeader) ==> (len($readConn0_1) >= 4 && int32(be32at($readConn0_1, 0)) == corrID && $readConn0_4 == nil)
 //@   ensures [payload-follows-the-id] (err == nil && !flexibleHeader) ==> (len(res) == len($readConn0_1) - 4 && sameobject(res, $readConn0_1))
 //@   ensures [flexible-matching] (err == nil && flexibleHeader) ==> (len($readConn0_1) >= 4 && int32(be32at($readConn0_1, 0)) == corrID && $readConn0_4 == nil)
+
+// handleResp: whatever bytes readResponse hands over (any length, including 0, 1 or 2), looking at them never
+// indexes out of range (the ApiVersions UNSUPPORTED_VERSION peek at byte 1 in particular); decoding is left to
+// the generated ReadFrom (C16).
+//@ func (cxn *brokerCxn) handleResp(pr promisedResp)
+//@   prop C22
+//@   nopanic
+
+// writeRequest: the correlation ID written into the request header is the connection's current one, the same ID
+// is returned to the caller (who queues it for readResponse's comparison) on a successful write, and the
+// connection's ID then advances by exactly one, wrapping from MaxInt32 to 0; a failed write returns before the ID
+// moves. (Assumed, listed: no callee writes cxn.corrID - it is owned by the one goroutine that writes requests.)
+//@ func (cxn *brokerCxn) writeRequest(ctx context.Context, enqueuedForWritingAt time.Time, req kmsg.Request) (corrID int32, bytesWritten int, writeWait time.Duration, timeToWrite time.Duration, readEnqueue time.Time, writeErr error)
+//@   prop C22
+//@   frozen cxn.corrID
+//   representation invariant of the field, established by the zero value and kept by this function, its only
+//   writer (audit below): the ID is never negative
+//@   requires cxn.corrID >= 0
+//@   ensures [id-stays-non-negative] cxn.corrID >= 0
+//@   site call AppendRequest#0 assert [header-carries-the-current-id] arg3 == cxn.corrID && cxn.corrID == old(cxn.corrID)
+//@   site store corrID#0 assert [advances-by-one] prev == old(cxn.corrID) && (val == prev + 1 || (prev == 2147483647 && val == -2147483648))
+//@   site store corrID#1 assert [wraps-to-zero] prev < 0 && val == 0
+//@   ensures [returns-the-id-it-wrote] (writeErr == nil && reached($writeConn0)) ==> corrID == old(cxn.corrID)
+//@   ensures [written-before-success] (writeErr == nil && reached($writeConn0)) ==> reached($AppendRequest0)
+//@   ensures [id-advanced-once] (writeErr == nil && reached($writeConn0)) ==> cxn.corrID == ite(old(cxn.corrID) == 2147483647, 0, old(cxn.corrID) + 1)
+//@   ensures [failed-write-keeps-the-id] writeErr != nil ==> cxn.corrID == old(cxn.corrID)
+//@ audit initonly brokerCxn.corrID except (*brokerCxn).writeRequest
+//@   prop C22
